@@ -64,7 +64,6 @@ Inductive value :=
 | VNone.
 
 (* the Python AST the token classes emit (only the node shapes selection.py builds) *)
-Inductive pcmp := PCmp (c : cmpop).
 Inductive pyexpr :=
 | PName (id : string)
 | PConst (v : value)
